@@ -9,7 +9,7 @@ from pyvc.dsl import *
 Data = Opaque("Data")
 SMeta = Rec("StateMeta", dict(status=Str, query=Str, is_error=Bool, caching=Bool, created=Str, filename=Opt(Str), extension=Str,
                               vars=Opaque("Any"), log=Seq(Opaque("Any")), volatile=Bool, message=Str, mimetype=Opt(Str), type_identifier=Opt(Str), commands=Seq(Opaque("Any")),
-                              extended_commands=Seq(Opaque("Any")), attributes=Opaque("Any")))
+                              extended_commands=Seq(Opaque("Any")), attributes=Opaque("Any"), data_characteristics=Opaque("Any")))
 
 classdef("liquer.state.State", fields=dict(data=Data, metadata=SMeta, metadata_only=Bool, exception=Opt(Opaque("Exc")),
                                             context=Opaque("Any"), status=Opaque("Any")))
@@ -63,6 +63,9 @@ def _(self):
 def _(self, data=None, metadata=None, context=None):
     modifies(self.data, self.metadata, self.metadata_only)
     ensures(not self.metadata_only and not rec_has(self.metadata, "status"), "default metadata carries no status")
+    ensures(implies(isnone(metadata), rec_has(self.metadata, "is_error") and not rec_get(self.metadata, "is_error")
+                    and not volatile_of(self.metadata) and rec_has(self.metadata, "caching") and rec_get(self.metadata, "caching")
+                    and rec_has(self.metadata, "query") and rec_get(self.metadata, "query") == ""), "the default metadata: no error, not volatile, caching on")
 
 
 # ------------------------------------------------------------------ MemoryCache
